@@ -190,7 +190,7 @@ func TestDriverTwin(t *testing.T) {
 			"(minimum-gas-prices, evm.tracer none/access_list/struct/json/markdown, GOMAXPROCS, CheckTx traffic, restarts from the database, wall-clock instant incl. one block straddling a vesting end time, Go map seeds); "+
 			"non-trivial = at least one transaction executed (code 0) and (a destroy / transfer() special or >= 3 transactions); distinct by (special, kinds, malformations, result classes)")
 	cases := NewCases(dir, "From Evm Require Import CorrBase Destroy Nondet CorrNondet.", "nd_mismatches")
-	w := newWorld(t, k)
+	w := newWorld(t, k, side)
 	side.Extra["replicas"] = w.describeCfgs()
 	straddleAt := n / 2
 	enumOrders := map[string]bool{}
@@ -243,6 +243,15 @@ func TestDriverTwin(t *testing.T) {
 		case r.Chance(40):
 			special = "stake-transfer"
 		}
+		// a deployment of an ERC-20 custom precompiled contract by message: after everything else in the block (mostly) or first
+		var deployTx *genTx
+		deployLast := true
+		if b != straddleAt && r.Chance(14) {
+			deployTx = w.genDeploy(r)
+			deployLast = r.Chance(75)
+		}
+		fresh := w.pendingFresh
+		w.pendingFresh = nil
 		var dry *dryRun
 		var plan *destroyPlan
 		switch special {
@@ -268,10 +277,31 @@ func TestDriverTwin(t *testing.T) {
 				special = "none"
 			}
 		}
-		for i, m := 0, r.Intn(7); i < m; i++ {
+		if fresh != nil {
+			// the block after a deployment begins with calls to the fresh contract
+			for i, m := 0, 1+r.Intn(2); i < m; i++ {
+				if g := w.genFreshCall(r, *fresh, "cpc-fresh-call"); g != nil {
+					gen = append(gen, g)
+				}
+			}
+		}
+		if deployTx != nil && !deployLast {
+			gen = append(gen, deployTx)
+		}
+		nmixed := r.Intn(7)
+		if deployTx != nil && deployLast && r.Chance(40) {
+			nmixed = 0 // the deployment is the only transaction: nothing after it builds an EVM in this block
+		}
+		for i := 0; i < nmixed; i++ {
 			if g := w.genMixed(r); g != nil {
 				gen = append(gen, g)
 			}
+		}
+		if r.Chance(15) {
+			gen = append(gen, w.genNonceRace(r)...)
+		}
+		if deployTx != nil && deployLast {
+			gen = append(gen, deployTx)
 		}
 		var raws [][]byte
 		for _, g := range gen {
@@ -293,7 +323,7 @@ func TestDriverTwin(t *testing.T) {
 					}
 				}
 			}
-			res := rep.runOn(raws)
+			res := rep.runOn(w, raws, r.Fork(uint64(1000+i)))
 			require.Equal(t, len(raws), len(res.TxResults))
 			projs[i] = project(res)
 			if i == 0 {
@@ -337,6 +367,16 @@ func TestDriverTwin(t *testing.T) {
 			side.Count("kind:" + g.Kind)
 			side.Count("mal:" + g.Mal)
 			side.Count("class:" + resClass(tr))
+			if g.deploy {
+				w.noteDeploy(g, tr)
+				if tr.Code != 0 && g.Mal == "ok" {
+					side.Count("cpc-deploy:unexpected-refusal:" + fmt.Sprintf("%.80s", tr.Log))
+				}
+				side.Count(fmt.Sprintf("cpc-deploy:%s:deployed=%v:last_in_block=%v", g.Mal, tr.Code == 0, i == len(gen)-1))
+			}
+			if g.Kind == "cpc-fresh-call" || g.Kind == "cpc-new-erc20" || g.Kind == "create-calls-cpc" {
+				side.Count(g.Kind + ":" + resClass(tr))
+			}
 			if g.floor && g.isEth {
 				admitted := !(tr.Codespace == "sdk" && tr.Code == 13)
 				cases.Add(fmt.Sprintf("(CFloor %s %s %s %s %s %s %s)", CqZ(base), CqZ(gminDec), CqBool(g.Dyn),
